@@ -74,7 +74,11 @@ def invalid_ops(rng, sup, tpls, kind):
         recs[pos] = bad_rec
         return "exp send %s d %d %s" % (rng.choice("012"), tid, ";".join(recs)), "" if n == 1 else ":pos%d/%d" % (pos + 1, n)
     if kind == "unknown-template":
-        if rng.random() < 0.5:
+        r = rng.random()
+        if r < 0.2:
+            # a record with NO fields for a template that was never sent (a missing template must not read as "0 fields")
+            return ["exp send %s d 9999 9999@-" % rng.choice("012")], kind + ":zero-fields"
+        if r < 0.55:
             return [send_data(rng, 9999, ies, 1)], kind
         op, where = among_valid("9999@%s" % elems(rng, ies, True))
         return [op], kind + where
